@@ -979,8 +979,12 @@ impl ASN1Type {
     pub fn references_class_by_name(&self) -> bool {
         match self {
             ASN1Type::Choice(c) => c.options.iter().any(|o| o.ty.references_class_by_name()),
-            ASN1Type::Sequence(s) => s.members.iter().any(|m| m.ty.references_class_by_name()),
-            ASN1Type::SequenceOf(so) => so.element_type.references_class_by_name(),
+            ASN1Type::Sequence(s) | ASN1Type::Set(s) => {
+                s.members.iter().any(|m| m.ty.references_class_by_name())
+            }
+            ASN1Type::SequenceOf(so) | ASN1Type::SetOf(so) => {
+                so.element_type.references_class_by_name()
+            }
             ASN1Type::ObjectClassField(ocf) => {
                 matches!(
                     ocf.field_path.last(),
@@ -1008,20 +1012,16 @@ impl ASN1Type {
                     .collect(),
                 constraints: c.constraints,
             }),
-            ASN1Type::Sequence(s) => ASN1Type::Sequence(SequenceOrSet {
-                extensible: s.extensible,
-                constraints: s.constraints,
-                components_of: s.components_of,
-                members: s
-                    .members
-                    .into_iter()
-                    .map(|mut member| {
-                        member.constraints = vec![];
-                        member.ty = member.ty.resolve_class_reference(tlds);
-                        member
-                    })
-                    .collect(),
-            }),
+            ASN1Type::Sequence(s) => ASN1Type::Sequence(s.resolve_class_reference(tlds)),
+            ASN1Type::Set(s) => ASN1Type::Set(s.resolve_class_reference(tlds)),
+            ASN1Type::SequenceOf(mut so) => {
+                so.element_type = Box::new(so.element_type.resolve_class_reference(tlds));
+                ASN1Type::SequenceOf(so)
+            }
+            ASN1Type::SetOf(mut so) => {
+                so.element_type = Box::new(so.element_type.resolve_class_reference(tlds));
+                ASN1Type::SetOf(so)
+            }
             ASN1Type::ObjectClassField(_) => self.reassign_type_for_ref(tlds),
             _ => self,
         }
@@ -1054,6 +1054,25 @@ impl ASN1Type {
             }
         }
         Ok(())
+    }
+}
+
+impl SequenceOrSet {
+    fn resolve_class_reference(self, tlds: &BTreeMap<String, ToplevelDefinition>) -> Self {
+        SequenceOrSet {
+            extensible: self.extensible,
+            constraints: self.constraints,
+            components_of: self.components_of,
+            members: self
+                .members
+                .into_iter()
+                .map(|mut member| {
+                    member.constraints = vec![];
+                    member.ty = member.ty.resolve_class_reference(tlds);
+                    member
+                })
+                .collect(),
+        }
     }
 }
 
